@@ -66,6 +66,15 @@ Section Ops.
     let* _ := proof_verify E p pk dmsgs idx header ph in
     Ok [].
 
+  (* the same with a public key taken as a raw G2 point (identity not excluded): the verifier's own checks decide *)
+  Definition op_proofverify_raw (pkb pb : bytes) (dmsgs : option (list bytes)) (idx : option (list N))
+             (header ph : option bytes) : outcome (list bytes) :=
+    if negb (Nat.eqb (length pkb) 96) then Err else
+    let* pk := try_opt (g2_dec P pkb) in
+    let* p := pok_from_bytes E pb in
+    let* _ := proof_verify E p pk dmsgs idx header ph in
+    Ok [].
+
   Definition op_commit (cmsgs : option (list bytes)) (rho : list (F S)) : outcome (list bytes) :=
     let* (x, b) := commit E cmsgs rho in
     Ok [commitment_to_bytes E x; f_to_be S b].
